@@ -19,7 +19,7 @@ REQUIRED = ["Angle.__init__", "Angle.reduce_deg", "Angle.reduce_dms", "Angle.dms
             "Angle.__rmod__", "Angle.__rpow__"]
 THEOREMS = ["C03_reduce_deg_ideal", "C03_reduction_spec", "C03_construct_ideal", "C03_sexagesimal_ideal", "C03_sexagesimal_canonical_ideal", "C03_operators_more_ideal",
             "C03_operators_ideal", "C03_division_by_zero_ideal", "C03_unary_compare_ideal",
-            "C03_views_ideal", "C03_grid_b64", "C03_reduce_deg_b64", "C03_construct_b64", "C03_to_positive_b64"]
+            "C03_views_ideal", "C03_grid_b64", "C03_reduce_deg_b64", "C03_construct_b64", "C03_to_positive_b64", "C03_set_ra_b64"]
 PROOF_TIMEOUT = {"quick": 1500, "thorough": 3000}
 EXHAUSTIVE = False
 MANIFEST = {
@@ -66,13 +66,13 @@ CLAUSES = {
     "unary -, abs, round(n); comparisons = comparisons of the values, == within the left operand's tolerance": "proved [ideal: C03_unary_compare_ideal (Angle-Angle all six; < > == vs float) + C03_operators_more_ideal (<= >= != vs float)]; comparisons with an int and reflected comparisons: searched",
     "to_positive in [0,360), congruent": "proved [ideal, all stored values in (-360,360): C03_views_ideal]; proved [B64, EVERY finite stored value in (-360,360): C03_to_positive_b64 - result in [0,360), = RN(360+d) (one rounding, error <= 2^-45 deg) or 0.0 when that rounds to 360.0 (only for -2^-45 <= d < 0, e.g. -1e-20)]; grid + searched",
     "rad = deg*pi/180, get_ra = deg/15, float(a) = a()": "proved [ideal: C03_views_ideal]; searched",
-    "binary64 rounding of the arithmetic (1e-9 degree scaled with magnitude) for all floats": "reduce_deg itself: proved exact for every finite float (C03_reduce_deg_b64); to_positive and Angle(x): proved for every finite float (C03_to_positive_b64, C03_construct_b64); the single rounding of a op b, dms2deg and set_ra for all floats: unproved (grid + searched)",
+    "binary64 rounding of the arithmetic (1e-9 degree scaled with magnitude) for all floats": "reduce_deg itself: proved exact for every finite float (C03_reduce_deg_b64); to_positive, Angle(x) and set_ra(x): proved for every finite float (C03_to_positive_b64, C03_construct_b64, C03_set_ra_b64: set_ra stores red360(RN(red360(x)*15)), one rounding <= 2^-41 deg); the single rounding of a op b and dms2deg for all floats: unproved (grid + searched)",
 }
 
 
 def proof_files(tier):
     return ["C03_defs.v", "C03_tac.v", "C03_reduce.v", "C03_construct.v", "C03_forms.v", "C03_dmsi.v", "C03_dms.v", "C03_dms_int.v", "C03_ops.v",
-            "C03_grid.v", "C03_reduce_b64.v", "C03_b64.v", "C03.v"]
+            "C03_grid.v", "C03_reduce_b64.v", "C03_b64.v", "C03_ra_b64.v", "C03.v"]
 
 
 # ----------------------------------------------------------------------------------------------
